@@ -558,6 +558,35 @@ def unit_tables(unit):
                 expect_table("lshift.row-of-a-table", lambda t: t << mk()[0], [b + [b[0]] for b in base])
                 expect_table("lshift.row.twice", lambda t: (t << list(row)) << list(row), [b + [x, x] for b, x in zip(base, row)])
         expect_table("lshift.table", lambda t: t << mk(), [b + b for b in base])
+        # ---- an appended row of a WIDER kind promotes the column (a typed TABLE of another kind is refused by design); the cells already there keep their VALUES (judged by ==,
+        # so that a conversion 1 -> 1.0 passes; the columns hold values a lossy conversion would change: ints beyond 2**53, dates
+        # that a datetime at midnight does not equal)
+        if kind in ("int", "date") and nrows:
+            from datetime import datetime as _dt
+            big = 2 ** 53 + 1
+
+            def mkw():
+                return Table([Vector([(big + val(c, r)) if kind == "int" else val(c, r) for r in range(nrows)], name=f"c{c}") for c in range(ncols)])
+            wbase = [[(big + val(c, r)) if kind == "int" else val(c, r) for r in range(nrows)] for c in range(ncols)]
+            wrow = [(c + 0.5) if kind == "int" else _dt(2001, 2, 3, 4, 5, c) for c in range(ncols)]
+            for site, thunk, want in (
+                    ("lshift.row.wider-kind", lambda t: t << list(wrow), [b + [x] for b, x in zip(wbase, wrow)]),
+                    ("lshift.row.wider-kind.twice", lambda t: (t << list(wrow)) << list(wrow), [b + [x, x] for b, x in zip(wbase, wrow)])):
+                agg.evals += 1; agg.transitions += 1; agg.compared += 1
+                t = mkw()
+                try:
+                    r = thunk(t)
+                except Exception as e:
+                    agg.violation(V(site, "raises-" + type(e).__name__, case, [list(map(repr, c)) for c in want], repr(e)[:80]))
+                    continue
+                got = [list(c._underlying) for c in r._underlying] if is_table(r) else None
+                src = [list(c._underlying) for c in t._underlying]
+                if src != wbase:
+                    agg.violation(V(site, "operand-modified", case, [list(map(repr, c)) for c in wbase], [list(map(repr, c)) for c in src]))
+                elif got is None or table_invariant(r) or got != want:
+                    agg.violation(V(site, "cells-not-preserved", case, [list(map(repr, c)) for c in want], [list(map(repr, c)) for c in got] if got is not None else repr(r)[:60]))
+                else:
+                    agg.outcomes["E-cells-preserved"] += 1
         if nrows:
             # a TABLE of exactly one row is appended column by column, whatever its cells are
             expect_table("lshift.table-of-one-row", lambda t: t << mk()[0:1], [b + b[0:1] for b in base])
